@@ -33,6 +33,8 @@ struct Plan {
     rejections: Cell<u32>,
     /// attempt number (of the instrumented STM) the counters belong to
     attempt_seen: Cell<u32>,
+    /// when non-zero, the plan only fires in this attempt (1-based) of the transaction
+    only_attempt: Cell<u32>,
 }
 
 shuttle::thread_local! {
@@ -45,6 +47,7 @@ shuttle::thread_local! {
         last_fired_at: Cell::new(0),
         rejections: Cell::new(0),
         attempt_seen: Cell::new(u32::MAX),
+        only_attempt: Cell::new(0),
     };
 }
 
@@ -61,7 +64,13 @@ pub fn disarm() {
     PLAN.with(|p| {
         p.fail_at.borrow_mut().clear();
         p.count.set(0);
+        p.only_attempt.set(0);
     });
+}
+
+/// Restrict the armed plan to one attempt (1-based) of the transaction; 0 = every attempt.
+pub fn only_in_attempt(a: u32) {
+    PLAN.with(|p| p.only_attempt.set(a));
 }
 
 /// To be called at the start of every execution of a transaction body. (Bodies run by the
@@ -149,7 +158,8 @@ pub fn callback(kind: u8, which: u8) -> Result<(), AttributeError> {
             p.log.borrow_mut().push((kind, which));
         }
         let f = p.fail_at.borrow();
-        if !f.is_empty() && f.contains(&n) {
+        let oa = p.only_attempt.get();
+        if !f.is_empty() && f.contains(&n) && (oa == 0 || oa == fast_stm::verif::attempts_of_this_thread()) {
             p.fired.set(p.fired.get() + 1);
             p.last_fired_at.set(n);
             p.rejections.set(p.rejections.get() + 1);
